@@ -5,7 +5,7 @@ package main
 // API
 //
 //	f := GenFeatures{...}                    what the caller's option set supports (see the struct)
-//	gt := GenType(r, f)                      a random type; nil if reflect refused to build it (counted by the caller)
+//	gt := GenValType(r, f)                      a random type; nil if reflect refused to build it (counted by the caller)
 //	gt.Type                                  reflect.Type (anonymous; struct types come from reflect.StructOf)
 //	gt.Root                                  *TNode descriptor tree parallel to the type (kinds, tags, formats)
 //	gt.HasOmit / gt.Lossy / gt.HasMap / gt.HasAny   facts the caller needs to pick the right predicate
@@ -150,9 +150,9 @@ func isNumericKind(k string) bool {
 	return false
 }
 
-// GenType builds one random type.  It returns nil when reflect refuses the construction
+// GenValType builds one random type.  It returns nil when reflect refuses the construction
 // (reflect.StructOf/ArrayOf panic for some shapes); the caller counts and skips those.
-func GenType(r *rand.Rand, f GenFeatures) (g *GenT) {
+func GenValType(r *rand.Rand, f GenFeatures) (g *GenT) {
 	if f.MaxDepth == 0 {
 		f.MaxDepth = 5
 	}
